@@ -228,6 +228,13 @@ def run(ctx):
                     ctx.check(not n.get("list"), "R07.6", f, "element-direct-initialised:" + C06._sig(f),
                               "%s builds the new element with list-initialisation %s: for element types with an initializer_list constructor the forwarded arguments become the list's contents "
                               "(the element differs from what emplace on a std container yields)" % (f.name, fmt(n)), (f, n.get("ln")), why_ok=fmt(n))
+        # handing the forwarded pack on to the sibling emplace member leaves the construction to that member
+        for _, _, e in f.roots():
+            for n in walk(e["expr"]):
+                if n.get("k") == "call" and short(n.get("name") or "") in ("emplace", "emplace_back") and short(n.get("name") or "") != f.name \
+                        and (n.get("this") is None or C06.is_this(n.get("this"))) and any("..." in fmt(a) or (isinstance(a, dict) and a.get("k") == "pack") for a in n.get("args", [])):
+                    nem += 1
+                    ctx.ok("R07.6", f, "element-direct-initialised:" + C06._sig(f), "construction delegated: " + fmt(n)[:60], (f, n.get("ln")))
     ctx.need("R07.6", "element constructions from the forwarded pack", nem, 2)
     # a forwarding-reference parameter keeps the caller's value category: an lvalue argument (`v.emplace_back(v[0])`, the same
     # named value appended twice) must still hold its value afterwards, so the parameter is passed on with std::forward only
@@ -360,7 +367,8 @@ def run(ctx):
     C06.run(sub)
     n = 0
     for o in sub.obs:
-        if o.rule in ("R06.5", "R06.8") or (o.rule == "R06.4" and "grow-below-capacity" in o.construct):
+        # (R06.6: an operation the bounded list refuses leaves the list as it was - a refused emplace that has already appended differs from it)
+        if o.rule in ("R06.5", "R06.6", "R06.8") or (o.rule == "R06.4" and "grow-below-capacity" in o.construct):
             o.rule = "R07.5"
             ctx.obs.append(o)
             n += 1
